@@ -863,6 +863,7 @@ type driver struct {
 	run *hx.Run
 	ep  *episode
 	reg map[string]bool // w|m|id registered (to know whether a client can self-sign)
+	hashSeen map[string]string // signed hash (hex) -> input tuple
 }
 
 func atoi(s string) int {
@@ -904,6 +905,16 @@ func (d *driver) exec(op string) string {
 		h, err := bcast.VerifHash(unhex(f[1]), string(unhex(f[2])), &anypb.Any{TypeUrl: string(unhex(f[3])), Value: unhex(f[4])})
 		hx.Must(err)
 		out = hex.EncodeToString(h)
+		// the signed hash must separate (session, id, type url, value): two different tuples with one
+		// hash mean that signatures given for one payload verify for another
+		tuple := strings.Join(f[1:5], " ")
+		if d.hashSeen == nil {
+			d.hashSeen = map[string]string{}
+		}
+		if prev, ok := d.hashSeen[out]; ok && prev != tuple {
+			d.run.Violate("bcast:signed_hash_collision", fmt.Sprintf("hash %s is the signed hash of (session id typeurl value) = (%s) and of (%s)", out, prev, tuple))
+		}
+		d.hashSeen[out] = tuple
 	default:
 		panic("bad op " + op)
 	}
